@@ -45,6 +45,8 @@ var c14Corpus = []string{
 	`a:b AND c:d`, `a:b OR c:d`, `NOT a:b`, `+a:b`, `-a:b`, `a:b c:d e:f`, `a:b~`, `a:b~2`, `a:b^`, `a:b^2.5`,
 	`x y`, `x AND "y z"`, `x*`, `(a:b OR c:[1 TO 2]) AND NOT d:(p OR q) -e:r* f:/s.t/`,
 	`a:it\'s`, `"a" : b`, `a:b AND`, `(`, `a:[1 TO`, `!`, ``,
+	// accepted by the grammar but refused by validation (anything cached before the refusal must not come back as a result)
+	`a:b:c`, `(a OR b):c*`,
 	// pairs of different queries that a cache keyed on a normalised form (printed tree, collapsed
 	// whitespace, case-folded text, column + shape) would confuse
 	`a:1 OR b:2 AND c:3`, `(a:1 OR b:2) AND c:3`, `n:7`, `n:"7"`, `t:"x  y"`, `t:"x y"`, `k:V`, `k:v`,
@@ -63,6 +65,22 @@ var c14SchedQueries = []string{
 	// two different long value lists on the same column (shared buffers sized for "big" lists)
 	`k:(1 OR 2 OR 3 OR 4 OR 5 OR 6 OR 7 OR 8 OR 9 OR 10 OR 11) AND z:1`,
 	`k:(a OR b OR c OR d OR e OR f OR g OR h OR i OR j OR l OR m) AND z:"two"`,
+	// a deep one (140 nested ANDs): anything a call counts, pools or limits per level is summed over
+	// the calls in flight if it lives in a package-level variable
+	c14DeepQuery(140),
+	// key words in lower and mixed case (anything folded, interned or cached per word)
+	`a:1 and b:2 or not c:3 AND d:[x to y] Or e:5`,
+}
+
+func c14DeepQuery(n int) string {
+	var sb strings.Builder
+	for i := 0; i < n; i++ {
+		if i > 0 {
+			sb.WriteString(" AND ")
+		}
+		fmt.Fprintf(&sb, "f%d:%d", i%7, i)
+	}
+	return sb.String()
 }
 
 type opInput struct {
@@ -362,6 +380,19 @@ func init() {
 					us = append(us, core.Unit{Name: fmt.Sprintf("explore|1|full|0|0|1|%s@3|%s@4", a, b), Weight: 3})
 				}
 			}
+			// deep inputs on both threads, preemptions at the statements that touch package-level variables
+			// (operations on the shared parsed expression only: parsing a 140-term query touches the package-level
+			// reducer table thousands of times, which is explored on the short queries)
+			deepOps := []string{"Render", "RenderParam", "String", "GoString", "Marshal", "Validate"}
+			for _, a := range deepOps {
+				for _, b := range deepOps {
+					unit(1, "globals", 5, 1, 2, a, b)
+				}
+			}
+			for _, o := range [][]string{{"Parse", "Parse"}, {"Parse", "ParseDF"}, {"ToPostgres", "ToParam"}, {"ToParam", "Parse"}} {
+				unit(1, "full", 6, 1, 3, o...)
+				us = append(us, core.Unit{Name: fmt.Sprintf("explore|1|full|0|0|1|%s@6|%s@0", o[0], o[1]), Weight: 3})
+			}
 			// the same option with two different values on the two threads (same and different inputs)
 			for _, o := range [][]string{{"ParseDF", "ParseDF2"}, {"ParseDF2", "ParseDF"}, {"ParseDF2", "ParseDF2"}, {"ParseDF2", "Parse"}} {
 				unit(1, "full", 0, 1, 3, o...)
@@ -547,6 +578,9 @@ func c14Eval(c core.Case) (res core.Result) {
 			add("race", "data-race "+raceClass(string(out)), trunc(string(out), 1500), "no data race")
 		} else if cmd.ProcessState != nil && cmd.ProcessState.ExitCode() == 1 {
 			add("race", "free-running result differs", trunc(string(out), 1500), "results identical to a sequential run")
+		} else if strings.Contains(string(out), "fatal error: concurrent map") {
+			// the runtime's own check for unsynchronised map access got there before the race detector
+			add("race", "fatal concurrent map access "+raceClass(string(out)), trunc(string(out), 1500), "no data race")
 		} else if err != nil {
 			// the complement could not run (harness problem): never a verdict on the library
 			res.Tags = append(res.Tags, "race_complement_failed_to_run")
